@@ -276,10 +276,11 @@ package airgapped
 //@   : .Machine.secKey .Machine.encryptionKey .Machine.baseSeed .DKG.secKey .BLSKeyring.Share .blsKeyringJSON.Share
 //@     .DistKeyShare.Share? .PriShare.V? .Deal.SecShare?
 //@     decrypt PriShare Deals scrypt.Key BLSKeyring).Bytes
-//@   -> scrypt.Key aes.NewCipher Seal NewBLS12381Suite tbls.Sign ecies.Encrypt ecies.Decrypt= frand.NewCustom NewDistKeyGenerator
-//@     GenerateKeys>Mul LoadKeysFromDB>UnmarshalBinary SaveKeysToDB>MarshalBinary=
-//@     handleStateDkgCommitsAwaitConfirmations>sha256.Sum256=
-//@     handleStateDkgDealsAwaitConfirmations>json.Marshal= handleStateDkgResponsesAwaitConfirmations>json.Unmarshal
-//@     BLSKeyring).Bytes>Encode LoadBLSKeyringFromBytes>json.Unmarshal LoadBLSKeyringFromBytes>bytes.NewBuffer=
-//@     LoadBLSKeyringFromBytes>gob.NewDecoder= LoadBLSKeyringFromBytes>Decode
+// consumers that keep the secret inside (ciphers, kyber's signing / dealing entry points, suite and reader constructors):
+//@   -> scrypt.Key aes.NewCipher Seal NewBLS12381Suite tbls.Sign ecies.Encrypt frand.NewCustom NewDistKeyGenerator
+// transformations whose result is as secret as their input (allowed everywhere, they never declassify):
+//@     ecies.Decrypt= sha256.Sum256= sha512.Sum512= json.Marshal= MarshalBinary= bytes.NewBuffer= gob.NewDecoder=
+// decoders and key derivations that turn secret bytes into an object, allowed only where named:
+//@     GenerateKeys>Mul LoadKeysFromDB>UnmarshalBinary handleStateDkgResponsesAwaitConfirmations>json.Unmarshal
+//@     BLSKeyring).Bytes>Encode LoadBLSKeyringFromBytes>json.Unmarshal LoadBLSKeyringFromBytes>Decode
 //@     return:DKG).GetDeals return:DKG).GetSecKey
